@@ -708,9 +708,15 @@ func init() {
 	// ---------- FileInfo / DirEntry
 	S := "(*os.fileStat)."
 	stOf := func(v Value) *statInfo { return v.(Pointer).O.Native.(*statInfo) }
-	reg(S+"Size", func(in *Interp, fn *ssa.Function, a []Value) (Value, *iPanic) { return in.B.Int64(stOf(a[0]).size), nil })
-	reg(S+"Name", func(in *Interp, fn *ssa.Function, a []Value) (Value, *iPanic) { return in.mkString(stOf(a[0]).name), nil })
-	reg(S+"IsDir", func(in *Interp, fn *ssa.Function, a []Value) (Value, *iPanic) { return in.B.Bool(stOf(a[0]).isDir), nil })
+	reg(S+"Size", func(in *Interp, fn *ssa.Function, a []Value) (Value, *iPanic) {
+		return in.B.Int64(stOf(a[0]).size), nil
+	})
+	reg(S+"Name", func(in *Interp, fn *ssa.Function, a []Value) (Value, *iPanic) {
+		return in.mkString(stOf(a[0]).name), nil
+	})
+	reg(S+"IsDir", func(in *Interp, fn *ssa.Function, a []Value) (Value, *iPanic) {
+		return in.B.Bool(stOf(a[0]).isDir), nil
+	})
 	reg(S+"Mode", func(in *Interp, fn *ssa.Function, a []Value) (Value, *iPanic) {
 		if stOf(a[0]).isDir {
 			return in.B.Int64(1<<31 | 0o755), nil
@@ -718,8 +724,12 @@ func init() {
 		return in.B.Int64(0o644), nil
 	})
 	D := "(*os.unixDirent)."
-	reg(D+"Name", func(in *Interp, fn *ssa.Function, a []Value) (Value, *iPanic) { return in.mkString(stOf(a[0]).name), nil })
-	reg(D+"IsDir", func(in *Interp, fn *ssa.Function, a []Value) (Value, *iPanic) { return in.B.Bool(stOf(a[0]).isDir), nil })
+	reg(D+"Name", func(in *Interp, fn *ssa.Function, a []Value) (Value, *iPanic) {
+		return in.mkString(stOf(a[0]).name), nil
+	})
+	reg(D+"IsDir", func(in *Interp, fn *ssa.Function, a []Value) (Value, *iPanic) {
+		return in.B.Bool(stOf(a[0]).isDir), nil
+	})
 	reg(D+"Info", func(in *Interp, fn *ssa.Function, a []Value) (Value, *iPanic) {
 		return Tuple{in.fileInfoValue(stOf(a[0])), IfaceV{}}, nil
 	})
